@@ -7,7 +7,7 @@
      verify_contract : it returns True or raises MemoerError (MemoerVerifyError);
      verify_no_vid   : an empty signer id never verifies. *)
 From Hio Require Import Base.Prelude Model.B64 Model.MemoGram Model.MemoRx Proofs.MemoRxProofs
-  Proofs.MemoRxEscapeProofs.
+  Proofs.MemoRxEscapeProofs Proofs.MemoVerifyProofs.
 
 Definition verify_contract (verify : bytes -> bytes -> bytes -> res unit) : Prop :=
   forall v s m, verify v s m = Ok tt \/ verify v s m = Exc MemoErr.
@@ -68,9 +68,65 @@ Proof.
   { apply in_app_or in Hin. destruct Hin as [Hin|Hin].
     - eapply Forall_forall in Im; eauto.
     - eapply Forall_forall in Ii; eauto. }
-  destruct A as (v & bodies & A1 & A2 & A3 & A4). exists v, bodies. auto.
+  destruct A as (v & bodies & A1 & A2 & A3 & A4 & _). exists v, bodies. auto.
 Qed.
 Print Assumptions C22_auth.
+
+(* ---- which key a signer id is checked against (Memoer.verify modelled as
+   MemoGram.mverify over the crypto proper [sigverify key sig ser]) ----
+   A non-transferable id (code 'B') is its own verkey.  A transferable ('D') or
+   digest ('E') id is only a label: its current verkey is the qvk in the
+   receiver's .keep, and without a keep entry nothing verifies for it. *)
+Theorem C22_verify_key : forall sigverify keep vid sg ser,
+  mverify sigverify keep vid sg ser = Ok tt ->
+  exists key, key_of keep vid = Some key /\ sigverify key sg ser = Ok tt.
+Proof. exact mverify_ok. Qed.
+Print Assumptions C22_verify_key.
+
+Theorem C22_transferable_needs_keep : forall sigverify keep vid sg ser,
+  hd 0%N vid <> 66%N -> keep vid = None -> mverify sigverify keep vid sg ser <> Ok tt.
+Proof. exact no_keep_no_verify. Qed.
+Print Assumptions C22_transferable_needs_keep.
+
+(* Non-vacuity: with a crypto that accepts everything, a 'D' id verifies exactly
+   when keep has an entry for it, a 'B' id always. *)
+Example C22_keep_example :
+  let anyok := fun (_ _ _ : bytes) => Ok tt in
+  let dvid := 68%N :: repeat 65%N 43 in let bvid := 66%N :: repeat 65%N 43 in
+  mverify anyok (fun _ => None) dvid [1%N] [2%N] = Exc MemoErr /\
+  mverify anyok (fun v => if bytes_eqb v dvid then Some bvid else None) dvid [1%N] [2%N] = Ok tt /\
+  mverify anyok (fun _ => None) bvid [1%N] [2%N] = Ok tt.
+Proof. vm_compute. repeat split. Qed.
+
+(* Hence, with authic, for ANY crypto and ANY keep: every delivered memo names a
+   signer id v for which this receiver has a key (v itself if 'B', else keep's
+   qvk: in particular v IS in keep), and every body of it arrived in a signed
+   part that the crypto accepted under exactly that key.  No premise is left:
+   the empty id never verifies by construction of mverify. *)
+Theorem C22_auth_keep : forall sigverify keep ops text src ov,
+  let s := fst (run (mverify sigverify keep) true init ops) in
+  In (text, src, ov) (rxms s ++ inbox s) ->
+  exists v key bodies, ov = Some v /\ key_of keep v = Some key /\ text = concat bodies /\
+    Forall (fun b => exists d ser sg head raw, In d (dgrams ops) /\
+              sigverify key sg ser = Ok tt /\ ser = head ++ b /\ d = ser ++ raw /\ (sg = raw \/ sg = enc raw)) bodies.
+Proof.
+  intros sigverify keep ops text src ov s Hin.
+  pose proof (run_inv (mverify sigverify keep) (mverify_no_vid sigverify keep) (dgrams ops) ops init
+                      (incl_refl _) (inv_init _ _)) as (_ & _ & Im & Ii).
+  fold s in Im, Ii.
+  assert (A : authentic (mverify sigverify keep) (dgrams ops) (text, src, ov)).
+  { apply in_app_or in Hin. destruct Hin as [Hin|Hin].
+    - eapply Forall_forall in Im; eauto.
+    - eapply Forall_forall in Ii; eauto. }
+  destruct A as (v & bodies & A1 & _ & A3 & A4 & (b0 & d0 & _ & (ser0 & sg0 & head0 & raw0 & V0 & _))).
+  cbn [fst snd] in A1, A3.
+  destruct (mverify_ok _ _ _ _ _ V0) as (key & K & _).
+  exists v, key, bodies. split; [exact A1|]. split; [exact K|]. split; [exact A3|].
+  eapply Forall_impl; [|exact A4]. cbn. intros b (d' & Hd' & ser' & sg' & head' & raw' & V' & A & B & C).
+  destruct (mverify_ok _ _ _ _ _ V') as (key' & K' & S'). rewrite K in K'. inversion K'; subst key'.
+  exists d', ser', sg', head', raw'. auto.
+Qed.
+Print Assumptions C22_auth_keep.
 
 (* With authic an accepted gram always carries a signature that verified for
    the signer it is filed under (its own vid for a zeroth gram, the vid of the
